@@ -22,6 +22,7 @@ pub fn c10_meta(tier: Tier) -> Meta {
         rule: format!(
             "Model-based: a history is a sequence of planning requests (length, direction) applied to ONE planner; the model says every returned transform must be a correct DFT of its own length and direction whatever came before. \
              Bounded-exhaustive: for each of {targets}+ target lengths up to {tmax} (highly composite 11-smooth lengths, p*2^k with Rader/Bluestein primes, a few fixed ones) a pool of <= 8 RELATED requests is derived from the target's own fresh plan via the plan-report hook (every stage of its AVX radix chain / every sub-recipe of its scalar or SSE recipe, Rader/Bluestein inner lengths, multiples of the target, and two opposite-direction requests), and ALL sequences of length <= 3 over the pool are run on the Scalar, Sse and Avx planners, f32 and f64. \
+             Pairs: every (M, p) with p prime <= 400 (quick) / 2048 (thorough) and M = 2^a*3^b in [2p,12p]: the history [M, p, p'] (a cached M is a candidate Bluestein inner length). \
              Random: {cases} proptest-drawn histories of length 1..12 over the divisor lattices of 5040*{{1,11,13,59,251}} and 2^a*3^b lengths (Bluestein inner sizes), all four planners. \
              Oracle for EVERY transform returned in a history: len()/fft_direction(); C02 bound on a dense vector and C01 tolerance on an impulse against the reference DFT, through a rotating entry point with exactly the advertised scratch; C06 round trip whenever both directions of a length were returned; all of it after the planner has been dropped; and a twin planner fed the same history must return transforms with bit-identical outputs. \
              Non-trivial: the history contains a request that the planner splices onto something an earlier request built (AVX: plan shows CacheBase(b), b < n; scalar/SSE: a sub-recipe length built earlier in that direction), as reported by the plan-report hook just before the request.",
@@ -143,6 +144,28 @@ pub fn c10_worker(ctx: &mut Ctx) {
                 if ctx.done() {
                     return;
                 }
+            }
+        }
+    }
+    // every pair (M, p): a 2^a*3^b length M in [2p, 12p] planned before a prime p (M is a candidate Bluestein inner length), both directions
+    {
+        let pmax = ctx.tier.pick(400usize, 2048);
+        let fams = Families::new(pmax * 12);
+        let primes: Vec<usize> = fams.fams.iter().find(|f| f.0 == "prime_any").map(|f| f.1.clone()).unwrap_or_default();
+        let smooth: Vec<usize> = fams.fams.iter().find(|f| f.0 == "smooth3").map(|f| f.1.clone()).unwrap_or_default();
+        for &q in primes.iter().filter(|&&q| q > 32 && q <= pmax) {
+            for &m in smooth.iter().filter(|&&m| m >= 2 * q && m <= 12 * q) {
+                if !ctx.mine() {
+                    continue;
+                }
+                let planner = [Planner::Scalar, Planner::Sse, Planner::Avx][(q + m) % 3];
+                let ty = TYS[(q / 2 + m) % 2];
+                let dir = DIRS[(q / 4) % 2];
+                let reqs = vec![Req { n: m, dir }, Req { n: q, dir }, Req { n: q, dir: dir.other() }];
+                ctx.exec(&Case::new("C10", "history", planner, ty, dir, q).with_source(Source::History { reqs, pick: 3 }).with_input(InputSpec::fam("uniform", (q * 31 + m) as u64)));
+            }
+            if ctx.done() {
+                return;
             }
         }
     }
